@@ -91,7 +91,12 @@ def prove(cond, name):
             unpoison(e)
             break
     before = dict(C.stats)
-    st, env = solve(rel + [pnot(p)], want_model=True)
+    # first with the facts that share support with the clause directly: `unsat` from fewer facts is `unsat` (and usually
+    # stays within the enumeration back end); only a model has to be sought again under the closed set of facts
+    rel0 = relevant_pc(p, closed=False)
+    st, env = ("sat", None) if len(rel0) == len(rel) else solve(rel0 + [pnot(p)], want_model=False)
+    if st != "unsat":
+        st, env = solve(rel + [pnot(p)], want_model=True)
     be = "z3" if C.stats["z3"] > before["z3"] else ("enum" if C.stats["enum"] > before["enum"] else "gf2-xor")
     if st == "unsat":
         LOG.append((name, be, time.time() - t0))
